@@ -41,6 +41,32 @@ class FDict:
                 return [Val(v_ite(p, self.value.get(k), default), st)]
         raise Unsupported(f"FDict.{name}")
 
+    def __pyvc_clone__(self, memo):
+        from .symexec import _clone
+
+        r = FDict({}, {})
+        memo[id(self)] = r
+        r.present = dict(self.present)
+        r.value = {k: _clone(v, memo) for k, v in self.value.items()}
+        return r
+
+    def __pyvc_setitem__(self, ex, idx, v, st, node):
+        if not isinstance(idx, str):
+            raise Unsupported("FDict symbolic key (store)")
+        tgt = self
+        try:  # the object of *this* state (a fork while evaluating the stored value clones the heap)
+            again = ex.models._reeval_container(ex, node, st)
+            if isinstance(again, FDict):
+                tgt = again
+        except Exception:  # noqa
+            pass
+        tgt.present[idx] = True
+        tgt.value[idx] = v
+        return [Outcome("fall", None, st)]
+
+    def __pyvc_isinstance__(self, t):
+        return t in (dict, object)
+
     def __pyvc_getitem__(self, ex, idx, st, node):
         if not isinstance(idx, str):
             raise Unsupported("FDict symbolic key")
@@ -60,6 +86,11 @@ class FDictItems:
         self.keys_only = keys_only
 
     __pyvc_symbolic_iter__ = True
+
+    def __pyvc_todict__(self):
+        if self.keys_only:
+            raise Unsupported("dict() of FDict keys")
+        return FDict(dict(self.d.present), dict(self.d.value))
 
 
 def for_fdict(models, ex, s, items, st):
